@@ -282,6 +282,33 @@ MtpCloseAllowed(s, k) ==
   \/ m.stopLoss \succ Zero /\ (IF m.side = "long" THEN px \preceq m.stopLoss ELSE px \succeq m.stopLoss)
   \/ m.takeProfit \succ Zero /\ (IF m.side = "long" THEN px \succeq m.takeProfit ELSE px \preceq m.takeProfit)
 
+\* Sub-step judgement (traces only).  A build-tag guarded hook in /repo lets the harness observe the state before the first and
+\* after every position that a leveragelp sweep, a leveragelp MsgClosePositions or a perpetual MsgClosePositions processes.
+\* Between two such observations the code looks at ONE position, in exactly the state of the earlier observation, so the
+\* probe IS the code's own evaluation: leveraged-LP health needs no band at all (what an earlier close of the same sweep did to
+\* the pool is already in the state); the perpetual probe settles interest and funding before it measures, as the code does.
+LevCloseAllowedExact(s, k) ==
+  LET pos == s.lev.positions[k]
+      pool == s.lev.pools[pos.pool] IN
+  \/ pos.probeHealth \prec Zero
+  \/ pos.probeHealth \preceq s.lev.safetyFactor
+  \/ pos.stopLoss \succ Zero /\ (pool.lpPrice \prec Zero \/ pool.lpPrice \preceq Widen(pos.stopLoss, 1))
+MtpCloseAllowedExact(s, k) ==
+  LET m == s.perp.mtps[k]
+      px == TradingPrice(s, m) IN
+  \/ m.probeHealth \prec Zero
+  \/ m.probeHealth \preceq Widen(s.perp.safetyFactor, 1)
+  \/ px = "none"
+  \/ m.stopLoss \succ Zero /\ (IF m.side = "long" THEN px \preceq m.stopLoss ELSE px \succeq m.stopLoss)
+  \/ m.takeProfit \succ Zero /\ (IF m.side = "long" THEN px \succeq m.takeProfit ELSE px \preceq m.takeProfit)
+SubChecks(s, t) ==
+  LET badLev == {x \in LevPositions(s) : LevAltered(s, t, x) /\ ~LevCloseAllowedExact(s, x)}
+      badMtp == {x \in Mtps(s) : MtpAltered(s, t, x) /\ ~MtpCloseAllowedExact(s, x)}
+  IN { Chk("C10", "C10.sub.lev_position_altered_between_two_looks_only_when_allowed", \E x \in LevPositions(s) : LevAltered(s, t, x), badLev = {}, Bad(badLev)),
+       Chk("C10", "C10.sub.perp_position_altered_between_two_looks_only_when_allowed", \E x \in Mtps(s) : MtpAltered(s, t, x), badMtp = {}, Bad(badMtp)) }
+\* the whole-step checks these replace when a step carries sub-step observations
+CoarseThirdParty == {"C10.step.lev_third_party_close_only_when_allowed", "C10.step.perp_third_party_close_only_when_allowed"}
+
 PositionChecks(k, e, s, t, g) ==
   LET levThird == k = "Begin" \/ (k = "Tx" /\ e.name = "leveragelp.MsgClosePositions")
       \* a long block-time gap lets arbitrary interest accrue before the sweep looks at a position: undecided
@@ -294,7 +321,9 @@ PositionChecks(k, e, s, t, g) ==
                                           /\ (\A z \in {y \in Mtps(s) : s.perp.mtps[y].owner = u} : ~MtpAltered(s, t, z))
                                           /\ (u # e.sender)}
       badFunds == {u \in untouchedOwners : Get(s.bank, u, << >>) # Get(t.bank, u, << >>)}
-      newLev == {x \in LevPositions(t) : x \notin LevPositions(s) \/ t.lev.positions[x].lp # s.lev.positions[x].lp}
+      \* (a dust consolidating open can add collateral without minting a single share)
+      newLev == {x \in LevPositions(t) : \/ x \notin LevPositions(s) \/ t.lev.positions[x].lp # s.lev.positions[x].lp
+                                         \/ t.lev.positions[x].collateral # s.lev.positions[x].collateral \/ t.lev.positions[x].liab # s.lev.positions[x].liab}
       newMtp == {x \in Mtps(t) : x \notin Mtps(s) \/ t.perp.mtps[x].custody \succ s.perp.mtps[x].custody}
   IN (IF levThird /\ gapOK THEN
         { Chk("C10", "C10.step.lev_third_party_close_only_when_allowed", \E x \in LevPositions(s) : LevAltered(s, t, x), badLev = {}, Bad(badLev)) }
